@@ -64,7 +64,12 @@ func genC01(r *Rng, tier string, seed uint64, kind string) *c01W {
 	default:
 		if r.Chance(12) {
 			w.Kind = "unwind"
-			// purpose-built data: every vertex carries a non-empty list "t"
+			// purpose-built data: every vertex carries a non-empty list "t", or
+			// (nested) a map "n" holding the list "t" next to a scalar
+			field := "t"
+			if r.Chance(40) {
+				field = "n.t"
+			}
 			for _, v := range w.Graph.V {
 				if v.Data == nil {
 					v.Data = map[string]interface{}{}
@@ -74,20 +79,24 @@ func genC01(r *Rng, tier string, seed uint64, kind string) *c01W {
 				for i := 0; i < n; i++ {
 					l = append(l, []string{"p", "q", "r"}[r.Intn(3)])
 				}
-				v.Data["t"] = l
+				if field == "t" {
+					v.Data["t"] = l
+				} else {
+					v.Data["n"] = map[string]interface{}{"t": l, "k": "c"}
+				}
 			}
 			prog = []*gripql.GraphStatement{gen.V()}
 			if r.Chance(50) {
 				prog = append(prog, gen.HasLabel("A", "B"))
 			}
-			prog = append(prog, gen.Unwind("t"))
+			prog = append(prog, gen.Unwind(field))
 			switch r.Intn(4) {
 			case 0:
-				prog = append(prog, gen.Has(gripql.Eq("t", "p")))
+				prog = append(prog, gen.Has(gripql.Eq(field, "p")))
 			case 1:
 				prog = append(prog, gen.Count())
 			case 2:
-				prog = append(prog, gen.Render(map[string]interface{}{"id": "_gid", "t": "t"}))
+				prog = append(prog, gen.Render(map[string]interface{}{"id": "_gid", "t": field}))
 			}
 		} else {
 			prog = gen.Program(r, w.Graph, gen.ProgOpts{MaxLen: 9, Oracle: true, IndexBias: r.Chance(40)})
